@@ -140,6 +140,29 @@ func aggregateResultsIntoSet(paths []regoPathResultInternal) RegoPathResult {
 func aggregateResultsIntoArray(paths []regoPathResultInternal) RegoPathResult {
 	rego := make([]string, 0)
 	ruleName := profile.Genvar("path_array_rule")
+	if len(paths) > 1 {
+		// A comprehension has a single body: with alternatives in the path, collect one array per
+		// alternative and concatenate them
+		concatenation := ""
+		for i, p := range paths {
+			partName := fmt.Sprintf("%s_%d", ruleName, i)
+			rego = append(rego, fmt.Sprintf("%s = [ nodes | ", partName))
+			for _, r := range p.rego {
+				rego = append(rego, "  "+r)
+			}
+			rego = append(rego, "]")
+			if i == 0 {
+				concatenation = partName
+			} else {
+				concatenation = fmt.Sprintf("array.concat(%s, %s)", concatenation, partName)
+			}
+		}
+		rego = append(rego, fmt.Sprintf("%s = %s", ruleName, concatenation))
+		return RegoPathResult{
+			rego: rego,
+			rule: ruleName,
+		}
+	}
 	for i, p := range paths {
 		if i == 0 {
 			rego = append(rego, fmt.Sprintf("%s = [ nodes | ", ruleName)) // header of the rule
